@@ -33,49 +33,55 @@ Neg(x) == IF x = MIN THEN MAX ELSE 0 - x        \* i16 saturating negation
 MaxOf(S) == CHOOSE x \in S : \A y \in S : y <= x
 
 -----------------------------------------------------------------------------
-(* The look-ahead game over a dumped tree t (t.nodes[i] = [fifty, rep, chk, eval, full, kids]) *)
-(* kids[j] = <<child id (0 = not expanded), capture flag, move>>                               *)
+(* The look-ahead game over a dumped tree.  A tree is a header line h (ev = "tree": fen, hist, depth, *)
+(* best, score, n) followed by its n nodes, one per line: node k of the tree is Rec[h + k] =         *)
+(* [fifty, rep, chk, eval, full, kids], kids[j] = <<child number (0 = not expanded), capture flag,  *)
+(* move>>.  Node 1 is the root.                                                                     *)
+
+Node(h, k) == Rec[h + k]
 
 RECURSIVE Quiesce(_, _)
-Quiesce(t, n) ==
-  LET nd == t.nodes[n]
+Quiesce(h, n) ==
+  LET nd == Node(h, n)
       caps == {j \in 1..Len(nd.kids) : nd.kids[j][2] = 1} IN
-  MaxOf({nd.eval} \cup {Neg(Quiesce(t, nd.kids[j][1])) : j \in caps})
+  MaxOf({nd.eval} \cup {Neg(Quiesce(h, nd.kids[j][1])) : j \in caps})
 
 RECURSIVE LookVal(_, _, _, _)
-LookVal(t, n, d, ply) ==
-  LET nd == t.nodes[n] IN
+LookVal(h, n, d, ply) ==
+  LET nd == Node(h, n) IN
   IF nd.fifty THEN 0                              \* fifty-move rule: immediate draw
   ELSE IF nd.rep THEN 0                           \* position seen before on this line: immediate draw
   ELSE LET dd == d + (IF nd.chk THEN 1 ELSE 0) IN \* get out of check before the horizon
-       IF dd = 0 THEN Quiesce(t, n)
+       IF dd = 0 THEN Quiesce(h, n)
        ELSE IF Len(nd.kids) = 0 THEN (IF nd.chk THEN MIN + ply ELSE 0)      \* mate by distance / stalemate
-       ELSE MaxOf({Neg(LookVal(t, nd.kids[j][1], dd - 1, ply + 1)) : j \in 1..Len(nd.kids)})
+       ELSE MaxOf({Neg(LookVal(h, nd.kids[j][1], dd - 1, ply + 1)) : j \in 1..Len(nd.kids)})
 
-RootKids(t) == t.nodes[1].kids
-ChildVal(t, j) == Neg(LookVal(t, RootKids(t)[j][1], t.depth - 1, 1))
-RootVal(t) == MaxOf({ChildVal(t, j) : j \in 1..Len(RootKids(t))})
+RootKids(h) == Node(h, 1).kids
+ChildVal(h, j) == Neg(LookVal(h, RootKids(h)[j][1], Rec[h].depth - 1, 1))
+RootVal(h) == MaxOf({ChildVal(h, j) : j \in 1..Len(RootKids(h))})
 
 \* the dump must have expanded every node the definition walks through
 RECURSIVE Expanded(_, _, _)
-Expanded(t, n, d) ==
-  LET nd == t.nodes[n] IN
+Expanded(h, n, d) ==
+  LET nd == Node(h, n) IN
   IF nd.fifty \/ nd.rep THEN TRUE
   ELSE LET dd == d + (IF nd.chk THEN 1 ELSE 0) IN
        IF dd = 0 THEN \A j \in 1..Len(nd.kids) : nd.kids[j][2] = 1 => nd.kids[j][1] # 0
        ELSE /\ nd.full
-            /\ \A j \in 1..Len(nd.kids) : nd.kids[j][1] # 0 /\ Expanded(t, nd.kids[j][1], dd - 1)
+            /\ \A j \in 1..Len(nd.kids) : nd.kids[j][1] # 0 /\ Expanded(h, nd.kids[j][1], dd - 1)
 
-C11Fails(t) ==
-  IF Len(RootKids(t)) = 0 THEN {}                 \* no legal move: outside the property
-  ELSE IF ~(\A j \in 1..Len(RootKids(t)) : RootKids(t)[j][1] # 0 /\ Expanded(t, RootKids(t)[j][1], t.depth - 1))
+C11Fails(h) ==
+  LET t == Rec[h] IN
+  IF Len(RootKids(h)) = 0 THEN {}                 \* no legal move: outside the property
+  ELSE IF ~(\A j \in 1..Len(RootKids(h)) : RootKids(h)[j][1] # 0 /\ Expanded(h, RootKids(h)[j][1], t.depth - 1))
   THEN {"DUMP-INCOMPLETE"}
-  ELSE LET rv == RootVal(t)
-           chosen == {j \in 1..Len(RootKids(t)) : RootKids(t)[j][3] = t.best} IN
+  ELSE LET rv == RootVal(h)
+           chosen == {j \in 1..Len(RootKids(h)) : RootKids(h)[j][3] = t.best} IN
        (IF t.panicked THEN {"panicked"} ELSE {})
        \cup (IF t.score # rv THEN {"root-score"} ELSE {})
        \cup (IF chosen = {} THEN {"best-not-a-root-move"}
-             ELSE IF \E j \in chosen : ChildVal(t, j) # rv THEN {"value-of-chosen-move"} ELSE {})
+             ELSE IF \E j \in chosen : ChildVal(h, j) # rv THEN {"value-of-chosen-move"} ELSE {})
+Trees == {i \in 1..N : Rec[i].ev = "tree"}
 
 -----------------------------------------------------------------------------
 (* C12 *)
@@ -124,9 +130,9 @@ svars == <<l, cur, aborted, widx, ref, refOf, judged, rejected>>
 FirstOf(S) == CHOOSE i \in S : \A j \in S : i <= j
 Stateless ==
   CASE Mode = "C11" ->
-         LET bad == {i \in 1..N : C11Fails(Rec[i]) # {}} IN
-         IF bad = {} THEN PrintT(<<"ACCEPT", N, Cardinality({i \in 1..N : Len(RootKids(Rec[i])) > 0})>>)
-         ELSE PrintT(<<"REJECT", FirstOf(bad), "tree", C11Fails(Rec[FirstOf(bad)]), Rec[FirstOf(bad)].score, RootVal(Rec[FirstOf(bad)])>>)
+         LET bad == {h \in Trees : C11Fails(h) # {}} IN
+         IF bad = {} THEN PrintT(<<"ACCEPT", Cardinality(Trees), Cardinality({h \in Trees : Len(RootKids(h)) > 0})>>)
+         ELSE PrintT(<<"REJECT", FirstOf(bad), "tree", C11Fails(FirstOf(bad)), Rec[FirstOf(bad)].score, RootVal(FirstOf(bad))>>)
     [] Mode = "C12" ->
          LET bad == {i \in 1..N : Rec[i].ev = "mate" /\ C12Fails(Rec[i]) # {}} IN
          IF bad = {} THEN PrintT(<<"ACCEPT", N, Cardinality({i \in 1..N : Rec[i].ev = "mate" /\ C12Applies(Rec[i])})>>)
